@@ -1,0 +1,10 @@
+//go:build verif
+
+package geom
+
+// Composition of the real WKB encoder and decoder; compiled only with the
+// verif tag.  Its contract (verif_contracts_wkb.go) is the Point round trip.
+
+func verifWKBPointRoundTrip(pt Point) (Geometry, error) {
+	return UnmarshalWKB(pt.AsBinary(), NoValidate{})
+}
